@@ -35,6 +35,7 @@ class Infeasible(Exception):
 # --------------------------------------------------------------------------- constants
 
 _RAT_CACHE = {}
+INF_NOTES = set()
 PI = z3.Real('pi')
 _PI_FLOATS = {math.pi: PI, -math.pi: -PI, math.pi / 2: PI / 2, -math.pi / 2: -PI / 2, 2 * math.pi: 2 * PI,
               float(torch.tensor(math.pi, dtype=torch.float32)): PI,
@@ -52,8 +53,14 @@ def rat(v):
     r = _RAT_CACHE.get(v)
     if r is not None:
         return r
-    if v != v or v in (float('inf'), float('-inf')):
-        raise Unsupported("non-finite concrete value %r meets a symbolic operator" % v)
+    if v != v:
+        raise Unsupported("NaN concrete value meets a symbolic operator")
+    if v in (float('inf'), float('-inf')):
+        # +-inf is modelled as +-2^1024 (the smallest magnitude that rounds to inf); sound for comparisons and for
+        # +,- against values assumed finite (harnesses that rely on it assume |inputs| <= 1e300 and say so)
+        INF_NOTES.add('concrete +-inf modelled as +-2^1024')
+        r = z3.RealVal(2 ** 1024) if v > 0 else z3.RealVal(-(2 ** 1024))
+        return r
     if v in _PI_FLOATS:
         return _PI_FLOATS[v]
     f = fractions.Fraction(v)
@@ -69,6 +76,8 @@ def rat(v):
 
 def rat32(v):
     """like rat but for a float32 payload: simplest rational that rounds to the same float32"""
+    if v != v or v in (float('inf'), float('-inf')) or isinstance(v, (bool, int)):
+        return rat(v)
     f = fractions.Fraction(v)
     t32 = lambda x: float(torch.tensor(float(x), dtype=torch.float32))
     for d in (1, 10, 100, 1000, 10 ** 4, 10 ** 5, 10 ** 6, 10 ** 7, 10 ** 9):
